@@ -13,6 +13,7 @@
 #include <covfie/core/backend/transformer/affine.hpp>
 #include <covfie/core/backend/transformer/covariant_cast.hpp>
 #include <covfie/core/field.hpp>
+#include <cmath>
 #include <cstring>
 #include <iostream>
 #include <sstream>
@@ -60,6 +61,24 @@ template <typename T, std::size_t... Is> algebra::affine<N, T> mkScale(const std
   return algebra::affine<N, T>::scaling(frombits<T>(a.at(Is))...);
 }
 
+// the factories called with arguments of DIFFERENT arithmetic types (each is converted to T on its own): small integers only;
+// position k is passed as int (k % 3 == 0), as unsigned when it is >= 0 and long otherwise (k % 3 == 1), as double (k % 3 == 2)
+template <typename T, bool Trans, std::size_t... Is> bool mixedFactoryAgrees(const std::vector<u64> & a, const algebra::affine<N, T> & want, std::index_sequence<Is...>) {
+  for (std::size_t k = 0; k < N; ++k) { T x = frombits<T>(a.at(k)); if (!(x >= T(-30000) && x <= T(30000) && static_cast<T>(static_cast<long>(x)) == x) || (x == T(0) && std::signbit(x))) return true; }
+  auto call = [&](auto... xs) { if constexpr (Trans) return algebra::affine<N, T>::translation(xs...); else return algebra::affine<N, T>::scaling(xs...); };
+  // int next to unsigned (position 0 as int, the others as unsigned) when the others are non-negative; otherwise int / long / double
+  bool othersNonNeg = true; for (std::size_t k = 1; k < N; ++k) if (frombits<T>(a.at(k)) < T(0)) othersNonNeg = false;
+  algebra::affine<N, T> got = call(static_cast<long>(frombits<T>(a.at(Is)))...);
+  if (othersNonNeg) {
+    auto pick = [&](auto idx) { constexpr std::size_t K = decltype(idx)::value; T x = frombits<T>(a.at(K)); if constexpr (K == 0) return static_cast<int>(x); else return static_cast<unsigned>(x); };
+    got = call(pick(std::integral_constant<std::size_t, Is>{})...);
+  }
+  for (std::size_t i = 0; i < N; ++i) for (std::size_t j = 0; j < N + 1; ++j) if (bits<T>(got(i, j)) != bits<T>(want(i, j))) return false;
+  auto pick2 = [&](auto idx) { constexpr std::size_t K = decltype(idx)::value; T x = frombits<T>(a.at(K)); if constexpr (K % 2 == 0) return static_cast<double>(x); else return static_cast<long>(x); };
+  algebra::affine<N, T> got2 = call(pick2(std::integral_constant<std::size_t, Is>{})...);
+  for (std::size_t i = 0; i < N; ++i) for (std::size_t j = 0; j < N + 1; ++j) if (bits<T>(got2(i, j)) != bits<T>(want(i, j))) return false;
+  return true;
+}
 template <typename T> std::string run(const std::string & op, const std::vector<std::string> & hd, const std::vector<std::vector<u64>> & g) {
   if (op == "apply") {
     if (g.size() != 2 || g[0].size() != N * (N + 1) || g[1].size() != N) return "bad-op";
@@ -134,6 +153,10 @@ template <typename T> std::string run(const std::string & op, const std::vector<
     if (kind == "t") { if (g[0].size() != N) return "bad-op"; m = mkTrans<T>(g[0], std::make_index_sequence<N>{}); }
     else if (kind == "s") { if (g[0].size() != N) return "bad-op"; m = mkScale<T>(g[0], std::make_index_sequence<N>{}); }
     else m = algebra::affine<N, T>(algebra::matrix<N, N + 1, T>::identity());
+    if (kind == "t" || kind == "s") {
+      bool ok = kind == "t" ? mixedFactoryAgrees<T, true>(g[0], m, std::make_index_sequence<N>{}) : mixedFactoryAgrees<T, false>(g[0], m, std::make_index_sequence<N>{});
+      if (!ok) { std::cerr << "Assertion `factory called with arguments of mixed arithmetic types builds the same matrix' failed" << std::endl; std::abort(); }
+    }
     algebra::vector<N, T> v = vecOf<T>(g[1]);
     algebra::vector<N, T> r = m * v;
     return matStr<T>(m) + " | " + vecStr<T>(r);
